@@ -70,9 +70,13 @@ package grpcgcp
 //@ inv gcpBalancer.mu Sig [C05] := forall r *subConnRef :: {isa(r)} isa(r) ==> r.stateSignal != nil && !closed(r.stateSignal) && r.stateSignal <= $alloc
 //@ inv gcpBalancer.mu SigInj [C05] := forall r1 *subConnRef, r2 *subConnRef :: {isa(r1), isa(r2)} isa(r1) && isa(r2) && r1 != r2 ==> r1.stateSignal != r2.stateSignal
 //@ inv gcpBalancer.mu I14 [C05 C03] := (forall sc in this.scRefs :: $created[sc]) && (forall sc in this.refreshingScRefs :: $created[sc]) && (forall r *subConnRef :: {isa(r)} isa(r) ==> $created[r.subConn])
-//@ inv gcpBalancer.mu I8c [C01 C07] := forall r *subConnRef :: {isa(r)} isa(r) ==> !(r.subConn in this.refreshingScRefs)
+//@ inv gcpBalancer.mu I8c [C01 C07 C03] := forall r *subConnRef :: {isa(r)} isa(r) ==> !(r.subConn in this.refreshingScRefs)
 //@ inv gcpBalancer.mu I1g [C01 C07] := forall r *subConnRef :: {isa(r)} isa(r) && r.subConn in this.scRefs ==> this.scRefs[r.subConn] == r
-//@ inv gcpBalancer.mu I8 [C05 C07] := forall sc balancer.SubConn :: {sc in this.refreshingScRefs} sc in this.refreshingScRefs ==> sc != nil && this.refreshingScRefs[sc] != nil && isa(this.refreshingScRefs[sc]) && !(sc in this.scRefs) && this.refreshingScRefs[sc].subConn != sc
+//@ inv gcpBalancer.mu I8 [C05 C07 C03] := forall sc balancer.SubConn :: {sc in this.refreshingScRefs} sc in this.refreshingScRefs ==> sc != nil && this.refreshingScRefs[sc] != nil && isa(this.refreshingScRefs[sc]) && !(sc in this.scRefs) && this.refreshingScRefs[sc].subConn != sc
+//@ inv gcpBalancer.mu I17 [C03] := forall sc balancer.SubConn :: {sc in this.refreshingScRefs} sc in this.refreshingScRefs ==> this.refreshingScRefs[sc].subConn in this.scRefs
+//@ inv gcpBalancer.mu I18 [C03] := forall r *subConnRef :: {isa(r)} isa(r) ==> r.subConn in this.scRefs
+// C03: a non-empty pool has a validated size range and, for minSize <= maxSize, never more than maxSize channels
+//@ inv gcpBalancer.mu I15 [C03] := (this.cfg == nil ==> len(this.scRefs) == 0) && (this.cfg != nil ==> this.cfg.GetChannelPool().GetMaxSize() >= 1 && (this.cfg.GetChannelPool().GetMinSize() <= this.cfg.GetChannelPool().GetMaxSize() ==> len(this.scRefs) <= this.cfg.GetChannelPool().GetMaxSize()))
 //@ inv gcpBalancer.mu I6 [C04] := this.csEvltr.numReady == count(this.scStates, connectivity.Ready) && this.csEvltr.numConnecting == count(this.scStates, connectivity.Connecting) && this.csEvltr.numTransientFailure == count(this.scStates, connectivity.TransientFailure)
 
 //@ inv gcpBalancer.mu I4 [C01] := forall k, v in this.affinityMap :: $created[v]
@@ -118,6 +122,8 @@ package grpcgcp
 //@ spec oldStateOf(gb *gcpBalancer, sc balancer.SubConn) := ite(old(sc in gb.scStates), old(gb.scStates[sc]), old(gb.scStates[gb.refreshingScRefs[sc].subConn]))
 //@ func (gb *gcpBalancer) UpdateSubConnState
 //@   requires sc != nil
+// gRPC reports SHUTDOWN only for a connection the balancer has removed; the size bound (only) relies on it
+//@   envassume [C03.assume-shutdown-only-removed] scs.ConnectivityState == connectivity.Shutdown ==> !(sc in gb.scRefs)
 //@   ensures [C04.publish-on-change] (old(sc in gb.scStates) || (old(sc in gb.refreshingScRefs) && scs.ConnectivityState == connectivity.Ready)) && (((scs.ConnectivityState == connectivity.Ready) != (oldStateOf(gb, sc) == connectivity.Ready)) || ((gb.state == connectivity.TransientFailure) != (old(gb.state) == connectivity.TransientFailure))) ==> $pubCount > old($pubCount)
 //@   ensures [C04.unknown-ignored] !old(sc in gb.scStates) && !old(sc in gb.refreshingScRefs) ==> $pubCount == old($pubCount) && gb.state == old(gb.state) && gb.picker == old(gb.picker) && gb.csEvltr.numReady == old(gb.csEvltr.numReady)
 //@   ensures [C01.frame] scs.ConnectivityState != connectivity.Shutdown ==> homeFrame(gb)
@@ -148,11 +154,13 @@ package grpcgcp
 //@   ensures [C20.resolver-error] true
 //@ func (gb *gcpBalancer) Close
 //@ func (gb *gcpBalancer) getConnectionPoolSize
+//@   ensures [C03.size-read] result == len(gb.scRefs)
 //@ func (gb *gcpBalancer) newSubConn
 //@   requires gb.cfg != nil
 //@   ensures [C01.frame] homeFrame(gb) && affUnchanged(gb) && fbUnchanged(gb)
 //@ func (gb *gcpBalancer) refresh
 //@   requires ref != nil && gb.cfg != nil && len(gb.scRefList) > 0
+//@   requires [C03.ref-is-slot] isa(ref)
 //@   ensures [C01.frame] homeFrame(gb) && affUnchanged(gb) && fbUnchanged(gb)
 //@   ensures [C07.refresh-once] old(ref.refreshing) ==> $newCalls == old($newCalls) && ref.refreshing && (forall sc balancer.SubConn :: (sc in gb.refreshingScRefs) == old(sc in gb.refreshingScRefs))
 //@   ensures [C07.refresh-create] !old(ref.refreshing) ==> $newCalls == old($newCalls) + 1
@@ -292,7 +300,8 @@ package grpcgcp
 //@   ensures [C02.least-or-wait] ($ret0 == nil) == ($ret1 != nil)
 //@   ensures [C03.below-watermark-placed] (exists x in p.scRefs :: x.streamsCnt < watermark(p)) ==> $ret0 != nil
 //@   callsite newSubConn#1 asserts [C03.grow-iff] forall x in p.scRefs :: x.streamsCnt >= watermark(p)
-//@   ensures [C03.grow-waits] true
+//@   callsite newSubConn#1 asserts [C03.grow-below-max] maxSizeOf(p.gb) == 0 || $call("getConnectionPoolSize#1") < maxSizeOf(p.gb)
+//@   ensures [C03.at-max-placed] $ret0 == nil ==> maxSizeOf(p.gb) == 0 || $call("getConnectionPoolSize#1") < maxSizeOf(p.gb)
 //@   loop 1 invariant minScRef != nil && minStreamsCnt == minScRef.streamsCnt && (exists j, x in p.scRefs :: x == minScRef)
 //@   loop 1 invariant forall j, x in p.scRefs :: j <= $i ==> minStreamsCnt <= x.streamsCnt
 //@ pred othersKeepStreams(r0 *subConnRef) := forall r *subConnRef :: {r.streamsCnt} old(isa(r)) && r != r0 ==> r.streamsCnt == old(r.streamsCnt)
@@ -310,6 +319,7 @@ package grpcgcp
 //@   ensures [C02.place-delta-others] $ret0 != nil ==> othersKeepStreams($ret0)
 //@   ensures [C02.place-delta-none] $ret0 == nil ==> othersKeepStreams(nil)
 //@   ensures [C02.place-delta-none] $ret1 != nil ==> $ret0 == nil
+//@   callsite streamsIncr#2 asserts [C02.select-and-count-atomic] held(p.mu)
 //@   ensures [C09.only-bind] !(cmd == pb.AffinityConfig_BIND && p.gb.cfg.GetChannelPool().GetBindPickStrategy() == pb.ChannelPoolConfig_ROUND_ROBIN) ==> p.gb.rrRefId == old(p.gb.rrRefId)
 //@   ensures [C04.gcppicker-not-tf] $ret1 == nil || $ret1 == balancer.ErrNoSubConnAvailable
 //@ func (p *gcpPicker) getSubConnRef
